@@ -138,9 +138,19 @@ def hyp_case(draw, max_len):
             "warm": draw(gens.warmups()) if len(s) <= 60 else []}
 
 
-def parts(tier):
+def _parts(tier):
     return [
         Part("enum-grid", "enum", check=check, cases=enum_cases, exhaustive=False, shards={"quick": 8, "thorough": 16}),
         Part("hyp-titration", "hyp", check=check, strategy=lambda t: hyp_case(300 if t == "quick" else 1000),
              examples={"quick": 6400, "thorough": 48000}, shards={"quick": 16, "thorough": 16}),
     ]
+
+
+def parts(tier):
+    ps = _parts(tier)
+    from .. import fuzz
+    if tier == "thorough" and fuzz.available():
+        # the same structured cases, generated coverage-guided: libFuzzer bytes drive the Hypothesis strategy (fuzz_one_input)
+        ps.append(Part("atheris-guided", "custom", check=[p for p in ps if p.name == "hyp-titration"][0].check, shards={"quick": 1, "thorough": 8},
+                       run=lambda ctx, t, seed, idx, n: fuzz.hyp_campaign(ctx, "c09", "hyp-titration", seed, idx, runs=30000)))
+    return ps
